@@ -569,4 +569,40 @@ theorem genesis_linking_needed_counterexample : ¬ FullStatementInitAnyGenesis :
   revert this
   decide
 
+/-- A well-formed fork is adopted completely: ids proper, distinct and not stored after the cut,
+    parents stored, predecessor links starting at the ancestor — then `triggerOnChain` succeeds and
+    the chain is exactly the old list up to the ancestor followed by the fork's groups (with
+    `AddGroup`'s header rewrite and their new heights). -/
+theorem inv_fork_switch_wellformed {l : List Group} {c : Chain} (r : Rep l c) (dur h : Nat) (gs : List Group)
+    (hid : ∀ g ∈ gs, IdOK g.id ∧ IdOK g.parent) (hnd : (gs.map (·.id)).Nodup)
+    (hfr : ∀ g ∈ gs, shas (rmTo c h).disk g.id = false)
+    (hpar : ∀ g ∈ gs, shas (rmTo c h).disk g.parent = true)
+    (hlk : Linked (rmTo c h).last.id gs) (hb : l.length + gs.length < lenBound) :
+    (forkSwitch dur c h gs).2 = true ∧
+      Rep (l.take (h + 1) ++ stampFrom (l.take (h + 1)).length (gs.map (prepare dur))) (forkSwitch dur c h gs).1 := by
+  have r1 := rep_rmTo r h
+  have hb' : (l.take (h + 1)).length + gs.length < lenBound := by
+    have : (l.take (h + 1)).length ≤ l.length := by simp [List.length_take]; omega
+    omega
+  obtain ⟨e1, e2⟩ := addAll_wellformed dur gs _ _ r1 hid hnd hfr hpar hlk hb'
+  refine ⟨e1, ?_⟩
+  rw [← e2]
+  exact rep_addAll dur gs _ _ r1 (fun g hg => (hid g hg).1) hb'
+
+/-- `GetAvailableGroupsByMinerId` never meets a nil group on a chain that represents a list, and
+    returns only listed groups that have the miner as a member. -/
+theorem available_by_miner_total {l : List Group} {c : Chain} (r : Rep l c) (h : Nat) (m : Bytes) :
+    ∃ res, availableByMiner c h m = some res ∧ ∀ g ∈ res, g ∈ l ∧ m ∈ g.members := by
+  obtain ⟨res, e, hr⟩ := minerFold_some m (availableAt c h) (fun og hog => by
+    obtain ⟨g, e, _⟩ := available_groups_listed r h og hog
+    exact ⟨g, e⟩)
+  refine ⟨res, by rw [availableByMiner_eq]; exact e, ?_⟩
+  intro g hg
+  obtain ⟨h1, h2⟩ := hr g hg
+  obtain ⟨g', e', hm⟩ := available_groups_listed r h (some g) h1
+  cases e'
+  exact ⟨hm, h2⟩
+
+example : availableByMiner c3 100 [0xe1] = some [] := by decide
+
 end Rangers.Props.C19
